@@ -1,6 +1,7 @@
 package worlds
 
 import (
+	"bytes"
 	"encoding/base64"
 	"fmt"
 
@@ -107,13 +108,24 @@ func (w *govWorld) badPayload() (*shmsg.Message, string) {
 	short := []byte{1, 2, 3}
 	a := w.keys[0].Addr.Bytes()
 	b := w.keys[len(w.keys)-1].Addr.Bytes()
+	mid := w.keys[len(w.keys)/2].Addr.Bytes()
+	if bytes.Equal(mid, a) || bytes.Equal(mid, b) {
+		mid = simtm.DetKey("some-other-address").Addr.Bytes()
+	}
+	// a repeated address is as invalid with another one in between as next to itself
+	dupList := func(x, y []byte) [][]byte {
+		if c.Bool("duplicate-not-adjacent") {
+			return [][]byte{x, y, x}
+		}
+		return [][]byte{x, x}
+	}
 	switch c.Intn(14, "bad-kind") {
 	case 0:
 		return &shmsg.Message{}, "empty message"
 	case 1:
 		return &shmsg.Message{Payload: &shmsg.Message_BatchConfig{BatchConfig: &shmsg.BatchConfig{Keypers: [][]byte{short}, Threshold: 1, KeyperConfigIndex: w.last().Index + 1}}}, "batch config with 3-byte address"
 	case 2:
-		return &shmsg.Message{Payload: &shmsg.Message_BatchConfig{BatchConfig: &shmsg.BatchConfig{Keypers: [][]byte{a, a}, Threshold: 1, KeyperConfigIndex: w.last().Index + 1, ActivationBlockNumber: w.last().Activation}}}, "batch config with duplicate keyper"
+		return &shmsg.Message{Payload: &shmsg.Message_BatchConfig{BatchConfig: &shmsg.BatchConfig{Keypers: dupList(a, mid), Threshold: 1, KeyperConfigIndex: w.last().Index + 1, ActivationBlockNumber: w.last().Activation}}}, "batch config with duplicate keyper"
 	case 3:
 		return &shmsg.Message{Payload: &shmsg.Message_CheckIn{CheckIn: &shmsg.CheckIn{ValidatorPublicKey: short, EncryptionPublicKey: short}}}, "check-in with short keys"
 	case 4:
@@ -125,7 +137,10 @@ func (w *govWorld) badPayload() (*shmsg.Message, string) {
 	case 5:
 		return &shmsg.Message{Payload: &shmsg.Message_PolyEval{PolyEval: &shmsg.PolyEval{Eon: eon, Receivers: [][]byte{a, b}, EncryptedEvals: [][]byte{{1}}}}}, "poly eval with mismatched lengths"
 	case 6:
-		return &shmsg.Message{Payload: &shmsg.Message_PolyEval{PolyEval: &shmsg.PolyEval{Eon: eon, Receivers: [][]byte{b, b}, EncryptedEvals: [][]byte{{1}, {2}}}}}, "poly eval with duplicate receivers"
+		return &shmsg.Message{Payload: &shmsg.Message_PolyEval{PolyEval: func() *shmsg.PolyEval {
+			rs := dupList(b, mid)
+			return &shmsg.PolyEval{Eon: eon, Receivers: rs, EncryptedEvals: [][]byte{{1}, {2}, {3}}[:len(rs)]}
+		}()}}, "poly eval with duplicate receivers"
 	case 7:
 		return &shmsg.Message{Payload: &shmsg.Message_PolyEval{PolyEval: &shmsg.PolyEval{Eon: eon, Receivers: [][]byte{short}, EncryptedEvals: [][]byte{{1}}}}}, "poly eval with short receiver"
 	case 8:
@@ -144,7 +159,7 @@ func (w *govWorld) badPayload() (*shmsg.Message, string) {
 		enc[c.Intn(len(enc), "off-position")] = off[c.Intn(len(off), "off-point")]
 		return &shmsg.Message{Payload: &shmsg.Message_PolyCommitment{PolyCommitment: &shmsg.PolyCommitment{Eon: eon, Gammas: enc}}}, "poly commitment with a gamma outside G2"
 	case 10:
-		return &shmsg.Message{Payload: &shmsg.Message_Accusation{Accusation: &shmsg.Accusation{Eon: eon, Accused: [][]byte{b, b}}}}, "accusation with duplicate accused"
+		return &shmsg.Message{Payload: &shmsg.Message_Accusation{Accusation: &shmsg.Accusation{Eon: eon, Accused: dupList(b, mid)}}}, "accusation with duplicate accused"
 	default:
 		return &shmsg.Message{Payload: &shmsg.Message_Apology{Apology: &shmsg.Apology{Eon: eon, Accusers: [][]byte{b}, PolyEvals: nil}}}, "apology with mismatched lengths"
 	}
